@@ -958,6 +958,56 @@ func stressCloseRun(r *hx.Rand, reps int) (races, bad int, note string) {
 	return
 }
 
+// probeAddRunEmpty (information only, never a verdict): RunnerCloserManager.Add racing with Run on a
+// manager that has no runner yet. Run reads len(mngr.runners) without the lock to decide whether
+// to add the close-runner; an Add that lands between that read and the start of the inner manager
+// is accepted and runs without close-runner, so Close cannot stop it (model:
+// C12_close_reaches_runners_refuted). Counted: Close not back within 2 s although Add returned nil.
+func probeAddRunEmpty(r *hx.Rand, reps int) (accepted, stuck int) {
+	bias := 0
+	for rep := 0; rep < reps && stuck < 2; rep++ {
+		m := concurrency.NewRunnerCloserManager(quietLog, nil)
+		pctx, cancel := context.WithCancel(context.Background())
+		var start atomic.Bool
+		done := make(chan struct{})
+		go func() {
+			for !start.Load() {
+			}
+			_ = m.Run(pctx)
+			close(done)
+		}()
+		var addErr error
+		added := make(chan struct{})
+		d := bias + r.Intn(16)
+		go func() {
+			for !start.Load() {
+			}
+			spin(d)
+			addErr = m.Add(func(ctx context.Context) error { <-ctx.Done(); return nil })
+			close(added)
+		}()
+		start.Store(true)
+		<-added
+		if addErr == nil {
+			accepted++
+			bias += 1 + bias/64
+			cd := make(chan struct{})
+			go func() { _ = m.Close(); close(cd) }()
+			if !waitChan(cd, 2*time.Second) {
+				stuck++
+			}
+		} else {
+			bias -= 1 + bias/64
+			if bias < 0 {
+				bias = 0
+			}
+		}
+		cancel()
+		waitChan(done, waitDeadline)
+	}
+	return
+}
+
 func runStress(ctx *core.Ctx, in c12Input) {
 	r := hx.NewRand(uint64(in.Seed))
 	var races, bad int
@@ -1468,6 +1518,10 @@ func c12Gen(ctx *core.Ctx) {
 		for c := 0; c < chunks; c++ {
 			runStress(ctx, c12Input{Kind: "stress", Stress: s.kind, Reps: reps / chunks, Seed: int64(r.U64() >> 1)})
 		}
+	}
+	if ctx.Thorough {
+		acc, stuck := probeAddRunEmpty(r, 100000)
+		ctx.Sink.Extra["info_add_vs_run_on_empty_closer_manager"] = map[string]int{"adds_accepted": acc, "close_stuck_2s": stuck}
 	}
 	genDegenerate(ctx)
 	genSeams(ctx)
